@@ -1236,6 +1236,14 @@ func (s *backendSuite) do(t []string) string {
 		if f, ok := opts["f"]; ok {
 			d = f
 		}
+		if d == "rd" {
+			// f=rd: the READ the client is parked at fails once with a transient error (the iterator the engine hands out
+			// next fails its first Next) - e.g. the repair's read of the key it is about to rewrite
+			s.c.mu.Lock()
+			s.c.iterFault = 1
+			s.c.mu.Unlock()
+			d = "-"
+		}
 		ch <- d
 		return s.awaitClient(cid)
 	case "stepto":
